@@ -228,6 +228,14 @@ class PathView:
     def attr(self, key):
         return [v for k, v, _ in self.attrs if k == ('str', key)]
 
+    def where(self):
+        """a source position for diagnostics about the whole path: the first storage write, else the last guard"""
+        for ef in self.e['effects']:
+            if ef[0] in ('save', 'remove'): return ef[5]
+        for f, site, _ in reversed(self.facts):
+            if site and 'rustlib' not in site: return site
+        return None
+
     def describe(self, maxfacts=30):
         maxfacts = maxfacts or 30
         lines = ['path (%s exit, request %s), last %d guard facts:' % (self.kind, self.variant, min(maxfacts, len(self.facts)))]
@@ -393,6 +401,7 @@ class Engine:
 
     # obligations
     def ob(self, ok, prop, rule, key, msg, where=None, detail=None, sample=None):
+        if isinstance(where, PathView): where = where.where()
         self.obligations += 1
         self.instances[rule] += 1
         if ok:
